@@ -64,9 +64,9 @@ func runC05(c *core.Ctx) {
 			c05FetchCase(k, pin.Fetch)
 		}
 	})
-	c.Cases("produce", c.N(5000, 80000), func(k *core.Case) { c05ProduceCase(k, runStart, nil) })
-	c.Cases("fetch", c.N(6000, 80000), func(k *core.Case) { c05FetchCase(k, nil) })
-	c.Cases("pages", c.N(240, 5000), func(k *core.Case) { c05PagesCase(k) })
+	c.Cases("produce", c.N(5000, 240000), func(k *core.Case) { c05ProduceCase(k, runStart, nil) })
+	c.Cases("fetch", c.N(6000, 240000), func(k *core.Case) { c05FetchCase(k, nil) })
+	c.Cases("pages", c.N(240, 15000), func(k *core.Case) { c05PagesCase(k) })
 }
 
 type c05ProducePin struct {
